@@ -43,9 +43,9 @@ def records(ctx, rng, nid):
     import dadi
     from dadi import Integration, PhiManip, Numerics
     recs = []
-    n = 14 if ctx.quick else 100
+    n = 21 if ctx.quick else 105
     for r in range(n):
-        P = rng.choice([1, 2, 2, 3, 3, 4, 5])
+        P = [1, 2, 3, 2, 3, 4, 5][r % 7]
         case = ic.gen_case(rng, P, kind='normal', n={1: 12, 2: 8, 3: 6, 4: 5, 5: 4}[P])
         case['t0'] = 0.0
         case['steps'] = rng.uniform(2.2, 6.5)
@@ -61,8 +61,23 @@ def records(ctx, rng, nid):
         f = getattr(Integration, ic.FUNCS[P])
         site = 'Integration.%s' % ic.FUNCS[P]
         # (a) linearity in (phi, theta0)
-        a, b = rng.choice([(1.0, 1.0), (2.5, 0.0), (rng.uniform(0.1, 3), rng.uniform(0.1, 3)), (0.0, 1.7)])
-        th1, th2 = case['theta0']['c0'], rng.uniform(0.1, 4)
+        a, b = rng.choice([(1.0, 1.0), (2.5, 0.0), (rng.uniform(0.1, 3), rng.uniform(0.1, 3)), (0.0, 1.7),
+                           (1.0, -1.5), (-0.7, 2.0), (rng.uniform(-3, 3), rng.uniform(-3, 3))])
+        th1, th2 = case['theta0']['c0'], rng.choice([rng.uniform(0.1, 4), 0.0, rng.uniform(0.1, 4)])
+        # theta0 = 0 is a legal boundary value (pure relaxation of the density): every integrator sees it in both roles
+        if (r // 7) % 3 == 1:
+            th2 = 0.0
+        elif (r // 7) % 3 == 2:
+            th1 = 0.0
+            case['theta0'] = {'c0': 0.0, 'c1': 0.0}
+        if r % 7 == 3 and b != 0:   # mutation rates that cancel in the combination
+            th2 = -a * th1 / b if -a * th1 / b >= 0 else th2
+        # dadi rejects a negative mutation rate: keep a*th1 + b*th2 >= 0 (densities may have either sign)
+        if a * th1 < 0:
+            th1 = 0.0
+            case['theta0'] = {'c0': 0.0, 'c1': 0.0}
+        if b * th2 < 0 and a * th1 + b * th2 < 0:
+            th2 = (a * th1 / -b) * rng.random()
         try:
             c1 = dict(case, theta0={'c0': th1, 'c1': case['theta0']['c1']})
             c2 = dict(case, theta0={'c0': th2, 'c1': 0.0})
@@ -77,6 +92,15 @@ def records(ctx, rng, nid):
                      'in': {'a': common.rat(a), 'b': common.rat(b), 'P': P, 'mode': case['mode'], 'frozen': case['frozen'], 'nomut': case['nomut']}, 'out': out})
         # (b) reference-size invariance of one integration
         c = rng.choice([0.05, 1 / 3., 3.0, 7.3, 20.0, loguni(rng, 0.05, 20)])
+        if r % 4 == 1:
+            # large sizes without migration or selection: the time-step rule is driven by 1/nu alone and the steps become long
+            for p_ in case['par']:
+                p_['nu'] = {'c0': rng.uniform(5, 20), 'c1': 0.0}
+                p_['gamma'] = {'c0': 0.0, 'c1': 0.0}
+                p_['mig'] = [{'c0': 0.0, 'c1': 0.0, 'const': True} for _ in p_['mig']]
+            c = rng.choice([7.3, 20.0])
+            dts = [Integration._compute_dt(np.diff(xx), p_['nu']['c0'], [0], 0.0, 0.5) for p_ in case['par']]
+            T = case['steps'] * min(dts)
         try:
             x = f(phi1.copy(), xx, T * c, **_kwargs(case, scale=c))
             y = f(phi1.copy(), xx, T, **_kwargs(case))
